@@ -5,7 +5,7 @@ cd "$(dirname "$0")/.."
 export GOFLAGS=-mod=mod GOPROXY=off GOSUMDB=off GOTOOLCHAIN=local
 dirs=${@:-$(ls seeded)}
 for d in $dirs; do
-  pid=${d%%_*}
+  pid=$(python3 -c "import json,sys; print(json.load(open('/verif/seeded/$d/meta.json')).get('property','${d%%_*}'))" 2>/dev/null || echo ${d%%_*})
   if [ -n "$(git -C /repo status --porcelain)" ]; then echo "/repo is dirty, abort"; exit 2; fi
   git -C /repo apply --check /verif/seeded/$d/patch.diff 2>/dev/null || { echo "$d: patch does not apply"; continue; }
   git -C /repo apply /verif/seeded/$d/patch.diff
